@@ -16,7 +16,7 @@ MODEL_MODULES = ['TenpyModel.Util.J', 'TenpyModel.Ops.Sym', 'TenpyModel.Ops.Term
 PROPS_MODULES = ['TenpyModel.C11.Props',
                  'TenpyModel.C11.Props2',
                  'TenpyModel.C11.PropsExtEnv', 'TenpyModel.C11.PropsExtStruct', 'TenpyModel.C11.PropsExtDecide',
-                 'TenpyModel.C11.PropsExtGQ']
+                 'TenpyModel.C11.PropsExtTerms', 'TenpyModel.C11.PropsExtGQ']
 LEAN_MODULES = PROPS_MODULES
 LEVEL = 'proof'
 BUDGET = {'quick': 200, 'thorough': 1500}
